@@ -64,6 +64,8 @@ pub enum EOp {
     LibWalk { picks: Vec<u8> },
     /// complete tree of library-generated moves to depth 2 under the task's current board (C05)
     LibTree,
+    /// the deprecated UI setters: Board::set_piece (kind Some) / Board::clear_square (kind None) on the task's board
+    Edit { sq: u8, kind: Option<(Kind, Col)> },
     /// key = hash of the task's current board (real get_hash value), optionally xor-ed with high bits
     TableAddHere { alias: u64 },
     TableGetHere { alias: u64 },
@@ -279,6 +281,10 @@ fn eop_s(e: &EOp) -> String {
         EOp::TableReplaceIf { key, pred, val } => format!("e=table_replace_if key={:016x} pred={} val={}", key, pred, val),
         EOp::LibWalk { picks } => format!("e=lib_walk picks={}", picks.iter().map(|b| format!("{:02x}", b)).collect::<String>()),
         EOp::LibTree => "e=lib_tree".into(),
+        EOp::Edit { sq, kind } => match kind {
+            Some((k, c)) => format!("e=edit sq={} put={}{}", sq_name(*sq), kind_letter_upper(*k), col_s(*c)),
+            None => format!("e=edit sq={} put=-", sq_name(*sq)),
+        },
         EOp::TableAddHere { alias } => format!("e=table_add_here alias={:016x}", alias),
         EOp::TableGetHere { alias } => format!("e=table_get_here alias={:016x}", alias),
     }
@@ -451,6 +457,16 @@ impl Step {
                         EOp::LibWalk { picks: v }
                     }
                     "lib_tree" => EOp::LibTree,
+                    "edit" => {
+                        let sq = parse_sq(g("sq")?)?;
+                        let put = g("put")?;
+                        let kind = if put == "-" {
+                            None
+                        } else {
+                            Some((kind_p(&put[0..1])?, col_p(&put[1..2])?))
+                        };
+                        EOp::Edit { sq, kind }
+                    }
                     "table_add_here" => EOp::TableAddHere { alias: gx("alias")? },
                     "table_get_here" => EOp::TableGetHere { alias: gx("alias")? },
                     _ => return None,
